@@ -271,3 +271,164 @@ Check C07_roundtrip_relative_to_lexer :
       exists its, lexes (print_text FX_ALL (policy_new fixed_opinfo) numtxt e) its /\
                   exists n, forall m, n <= m -> parse_items impl_table infix_map prefix_map m its = Ok (Some e).
 Print Assumptions C07_roundtrip_relative_to_lexer.
+
+(* ================================================================ the multi-line layouts (C07L) *)
+(* Objects.  Formatter.v transcribes formatter.rs as a document model (fmtd = format_expr_impl with
+   every layout function; the FORMAT stream of C08 runs it against the real formatter).
+   FmtTokens.v: fmt_items = the pest token stream each layout denotes, by recursion parallel to the
+   layout functions (same width decisions, taken on `render` of the same documents; same oracle
+   calls); printer_oracles = ast_to_source.rs as Printer.v has it, packaged as formatter.rs's imports;
+   lam_ok = no lambda parameter name starts with `-` (grammar identifiers start with a letter or `_`);
+   lview = canon o toks, the layout-erasing lexical view of a text.  Proofs: proofs/FmtItems.v.
+   fmt_items has a version switch (its `true` argument below): true = fixes/C07-crlf-lines.diff, the
+   via/into/where arm of format_binary_op_multiline re-assembles its right operand unchanged; false =
+   the code before that fix, where str::lines() drops the "\r" of every "\r\n" inside a string literal
+   of the right operand (finding F55, class crlf-lines: C07_layout_crlf_refuted below) and the token
+   stream of the changed text is the unknown `orl`.  The theorems are about the repaired formatter,
+   for every `orl`. *)
+Require Import Blots.Formatter Blots.FmtTokens Blots.proofs.FmtItems.
+Require Blots.Emit Blots.PegToItems.
+
+(* layout_preserves_items.  For EVERY well-formed tree, every max_columns `w` and every indentation
+   `i`, both versions of the nested-comment switch: the token stream of what format_expr_impl lays out
+   is the token stream of the one-line printer — every layout only inserts blanks, line breaks and
+   optional commas between the same tokens and takes the same parenthesisation decisions
+   (needs_parens_in_binop / _postfix / _unary / lambda_body_needs_parens are asked for the same
+   parent/child pairs; protect_leading_minus, decided on the laid-out text, agrees with the do-block
+   rule of expr_to_source, decided on the one-line text). *)
+Theorem C07_layout_preserves_items : forall fx numtxt keepc orl w e i,
+  fx_dominus fx = true ->
+  wf e = true -> lam_ok e = true ->
+  fmt_items (printer_oracles fx (policy_new fixed_opinfo) numtxt keepc)
+            (print_items fx (policy_new fixed_opinfo) numtxt) key_item true orl w e i
+  = print_items fx (policy_new fixed_opinfo) numtxt e.
+Proof. intros fx numtxt keepc orl w e i. exact (layout_preserves_items fixed_opinfo fx numtxt keepc orl w e i). Qed.
+Check C07_layout_preserves_items : forall fx numtxt keepc orl w e i,
+  fx_dominus fx = true ->
+  wf e = true -> lam_ok e = true ->
+  fmt_items (printer_oracles fx (policy_new fixed_opinfo) numtxt keepc)
+            (print_items fx (policy_new fixed_opinfo) numtxt) key_item true orl w e i
+  = print_items fx (policy_new fixed_opinfo) numtxt e.
+Print Assumptions C07_layout_preserves_items.
+
+(* the same for ANY oracle record with the stated interface (any precedence table, any version of the
+   printer's policy whose callee rule is needs_parens_in_postfix and that leaves do-block lambda bodies
+   bare — format_lambda does not ask for them —, any text function that starts like print_text) *)
+Theorem C07_layout_preserves_items_any_oracle : forall fx pol numtxt O orl w e i,
+  fx_dominus fx = true ->
+  (forall op c, o_needs_parens O op c true = pL pol op c) ->
+  (forall op c, o_needs_parens O op c false = pR pol op c) ->
+  (forall c, o_postfix_parens O c = pP pol c) ->
+  (forall c, pC pol c = pP pol c) ->
+  (forall c, o_lambda_body_parens O c = pB pol c) ->
+  (forall s r, pB pol (EDo s r) = false) ->
+  (forall c, o_unary_parens O c = pU pol c) ->
+  (forall e, lead3 (o_e2s O e) = lead3 (print_text fx pol numtxt e)) ->
+  wf e = true -> lam_ok e = true ->
+  fmt_items O (print_items fx pol numtxt) key_item true orl w e i = print_items fx pol numtxt e.
+Proof. exact layout_preserves_items_any_oracle. Qed.
+Check C07_layout_preserves_items_any_oracle : forall fx pol numtxt O orl w e i,
+  fx_dominus fx = true ->
+  (forall op c, o_needs_parens O op c true = pL pol op c) ->
+  (forall op c, o_needs_parens O op c false = pR pol op c) ->
+  (forall c, o_postfix_parens O c = pP pol c) ->
+  (forall c, pC pol c = pP pol c) ->
+  (forall c, o_lambda_body_parens O c = pB pol c) ->
+  (forall s r, pB pol (EDo s r) = false) ->
+  (forall c, o_unary_parens O c = pU pol c) ->
+  (forall e, lead3 (o_e2s O e) = lead3 (print_text fx pol numtxt e)) ->
+  wf e = true -> lam_ok e = true ->
+  fmt_items O (print_items fx pol numtxt) key_item true orl w e i = print_items fx pol numtxt e.
+Print Assumptions C07_layout_preserves_items_any_oracle.
+
+(* statements: both drivers hand `output x = e` / `output x` to format_expr as Expr::Output *)
+Theorem C07_layout_preserves_statement_items : forall fx numtxt keepc orl w e i,
+  fx_dominus fx = true ->
+  wf (stmt_body e) = true -> lam_ok e = true ->
+  fmt_items (printer_oracles fx (policy_new fixed_opinfo) numtxt keepc)
+            (print_items fx (policy_new fixed_opinfo) numtxt) key_item true orl w e i
+  = stmt_items fx (policy_new fixed_opinfo) numtxt e.
+Proof. intros fx numtxt keepc orl w e i. exact (layout_preserves_stmt_items fixed_opinfo fx numtxt keepc orl w e i). Qed.
+Check C07_layout_preserves_statement_items : forall fx numtxt keepc orl w e i,
+  fx_dominus fx = true ->
+  wf (stmt_body e) = true -> lam_ok e = true ->
+  fmt_items (printer_oracles fx (policy_new fixed_opinfo) numtxt keepc)
+            (print_items fx (policy_new fixed_opinfo) numtxt) key_item true orl w e i
+  = stmt_items fx (policy_new fixed_opinfo) numtxt e.
+Print Assumptions C07_layout_preserves_statement_items.
+
+(* format_roundtrip_items: pest's Pratt parser on the formatter's token stream returns the tree, at
+   EVERY width (format_expr = indentation 0, max_columns or 80) *)
+Theorem C07_format_roundtrip_items : forall fx numtxt keepc orl max_columns e,
+  fx_dominus fx = true ->
+  wf e = true -> lam_ok e = true ->
+  exists n, forall m, n <= m ->
+    parse_items impl_table infix_map prefix_map m
+      (format_expr_items (printer_oracles fx (policy_new fixed_opinfo) numtxt keepc)
+                         (print_items fx (policy_new fixed_opinfo) numtxt) key_item true orl e max_columns)
+    = Ok (Some e).
+Proof.
+  intros fx numtxt keepc orl mc e Hd Hw Hl. unfold format_expr_items.
+  apply format_roundtrip_items; [exact fixed_opinfo_consistent | exact Hd | exact Hw | exact Hl].
+Qed.
+Check C07_format_roundtrip_items : forall fx numtxt keepc orl max_columns e,
+  fx_dominus fx = true ->
+  wf e = true -> lam_ok e = true ->
+  exists n, forall m, n <= m ->
+    parse_items impl_table infix_map prefix_map m
+      (format_expr_items (printer_oracles fx (policy_new fixed_opinfo) numtxt keepc)
+                         (print_items fx (policy_new fixed_opinfo) numtxt) key_item true orl e max_columns)
+    = Ok (Some e).
+Print Assumptions C07_format_roundtrip_items.
+
+(* the hypotheses are satisfiable and the layouts are really taken: at width 10 the tree of
+   C07_example_wf_classfree is laid out on several lines, and its item stream is the printer's *)
+Example C07_example_layout_multiline :
+  let e := EBin Where (EBin Via (EId "xs") (ELam [AReq "x"] (EBin Add (EBin Multiply (EId "x") (EId "k")) (EId "one"))))
+                (EId "ok") in
+  let O := printer_oracles FX_ALL (policy_new fixed_opinfo) num_text true in
+  wf e = true /\ lam_ok e = true /\
+  contains_nl (render (fmtd O 10 e 0)) = true /\
+  fmt_items O (print_items FX_ALL (policy_new fixed_opinfo) num_text) key_item true (fun _ _ => []) 10 e 0
+  = print_items FX_ALL (policy_new fixed_opinfo) num_text e /\
+  lview (render (fmtd O 10 e 0)) = lview (print_text FX_ALL (policy_new fixed_opinfo) num_text e).
+Proof. vm_compute. repeat split. Qed.
+
+(* ---------------------------------------------------------------- refuted on the code before fixes/C07-crlf-lines.diff *)
+(* F55, class crlf-lines.  `xs via x => "a\r\nb"`: the string literal makes the right operand's text
+   span two lines, format_binary_op_multiline re-assembles it from str::lines(), which drops the "\r":
+   the formatted text carries the literal "a\nb".  Witness on Formatter.v (the model of the code as it
+   is), every width at which the first line fits; replayed on the implementation by the check. *)
+Definition s_crlf : string := String (Ascii.ascii_of_nat 97) (String CRc (String NLc "b")).
+Definition w_crlf : expr := EBin Via (EId "xs") (ELam [AReq "x"] (EStr s_crlf)).
+Theorem C07_layout_crlf_refuted :
+  let O := printer_oracles FX_ALL (policy_new fixed_opinfo) num_text true in
+  wf w_crlf = true /\ lam_ok w_crlf = true /\ cr_free w_crlf = false /\
+  doc_relined (fmtd O 80 w_crlf 0) = [ELam [AReq "x"] (EStr s_crlf)] /\
+  lview (render (fmtd O 80 w_crlf 0)) <> lview (print_text FX_ALL (policy_new fixed_opinfo) num_text w_crlf).
+Proof. vm_compute. repeat split; try discriminate. Qed.
+Check C07_layout_crlf_refuted :
+  let O := printer_oracles FX_ALL (policy_new fixed_opinfo) num_text true in
+  wf w_crlf = true /\ lam_ok w_crlf = true /\ cr_free w_crlf = false /\
+  doc_relined (fmtd O 80 w_crlf 0) = [ELam [AReq "x"] (EStr s_crlf)] /\
+  lview (render (fmtd O 80 w_crlf 0)) <> lview (print_text FX_ALL (policy_new fixed_opinfo) num_text w_crlf).
+Print Assumptions C07_layout_crlf_refuted.
+
+(* ---------------------------------------------------------------- kept, not proved (character level) *)
+(* (a) the tie between the item stream and the TEXT of a layout: under the lexical view the laid-out
+   text is the one-line text.  Not proved (toks is a character automaton; the proof needs its
+   compositionality over the documents); evaluated on the real formatter's output on every run
+   (FORMAT-items stream of checks/c07.py, all boundary widths).  cr_free is the exclusion of finding
+   class crlf-lines (Formatter.v models the code before fixes/C07-crlf-lines.diff). *)
+Definition C07_layout_preserves_tokens_full : Prop := forall numtxt keepc w e i,
+  wf e = true -> lam_ok e = true -> cr_free e = true ->
+  let O := printer_oracles FX_ALL (policy_new fixed_opinfo) numtxt keepc in
+  lview (render (fmtd O w e i)) = lview (print_text FX_ALL (policy_new fixed_opinfo) numtxt e).
+(* (b) the line breaks of the layouts are where grammar.pest admits them: the PEG model (Peg.v on
+   gen/Grammar.v) + PegToItems + the Pratt model read the laid-out text back as the tree.  Not proved;
+   evaluated by vm_compute on real formatter output (FORMAT-peg part of the FORMAT-items stream) and
+   decided on the real parser by the search streams. *)
+Definition C07_layout_parses_full : Prop := forall keepc w e,
+  wf e = true -> lam_ok e = true -> cr_free e = true -> strings_ok FX_ALL e = true ->
+  let O := printer_oracles FX_ALL (policy_new fixed_opinfo) num_text keepc in
+  PegToItems.parse_text (render (fmtd O w e 0)) = ("E " ++ Emit.show_expr e)%string.
